@@ -33,6 +33,7 @@ structure ToyVal where
   failAt : Option Nat
   learn : Bool
   params : Option String
+  skip : Option Nat := none   -- learners with this `mult` get no rows (and are not touched)
 
 abbrev Row := List Nat
 
@@ -50,6 +51,7 @@ def toyLoop (learn : Bool) (vfail : Option Nat) (seed : Nat) :
 
 def toyEval (env : ToyEnv) (val : ToyVal) (s : ToyS) (seed : Nat) : Except Err (List Row) × ToyS :=
   if val.failAt = some 0 then (.error .raised, s) else
+  if val.skip = some s.mult then (.ok [], s) else
   let r := toyLoop val.learn val.failAt seed env.data 0 s []
   match r.1 with
   | .ok rows => if env.fails then (.error .raised, r.2) else (.ok rows, r.2)
@@ -61,7 +63,7 @@ def toParams : Option String → Except Err String
 
 def dfltS : ToyS := ⟨0, none, none, 0, 0⟩
 def dfltEnv : ToyEnv := ⟨[], false, none, none⟩
-def dfltVal : ToyVal := ⟨none, none, true, none⟩
+def dfltVal : ToyVal := ⟨none, none, true, none, none⟩
 
 def mkComps (envs : List ToyEnv) (lrns : List ToyLrn) (vals : List ToyVal) : Comps ToyS String Row :=
   { envParams := fun e => toParams ((envs.getD e dfltEnv).params)
@@ -83,7 +85,8 @@ def parseLrn (j : Json) : Except String ToyLrn := do
 
 def parseVal (j : Json) : Except String ToyVal := do
   pure { seed := ← opt nat (fieldD j "seed" Json.null), failAt := ← opt nat (fieldD j "fail_at" Json.null),
-         learn := ← bool (← field j "learn"), params := ← opt str (fieldD j "params" Json.null) }
+         learn := ← bool (← field j "learn"), params := ← opt str (fieldD j "params" Json.null),
+         skip := ← opt nat (fieldD j "skip_mult" Json.null) }
 
 def parseTriple (j : Json) : Except String Triple := do
   match ← natList j with
